@@ -364,7 +364,7 @@ theorem reviseFc2_spec {T} {ms : Mid} (hc : Ctx T ms.base) (hI : Inv T ms) {e : 
     omega
 
 theorem resolveFc2_spec {T} {ms ms' : Mid} (hc : Ctx T ms.base) (hI : Inv T ms) {e : Fc2Elem} (hs : LiveFc2 T ms e)
-    {k : ResKind} (h : ms.resolveFc2 e k = .ok ms') :
+    (hmh : e.fc.missedHost ≤ e.fc.host.value) {k : ResKind} (h : ms.resolveFc2 e k = .ok ms') :
     Inv T ms' ∧ Agree ms ms' (· = e.id) ∧
     Phi ms' + e.fc.val = Phi ms ∧ sfTot ms' = sfTot ms ∧ ms'.pool = ms.pool ∧ ms'.base = ms.base := by
   have hT := hs.1
@@ -403,7 +403,7 @@ theorem resolveFc2_spec {T} {ms ms' : Mid} (hc : Ctx T ms.base) (hI : Inv T ms) 
       | none => rfl
       | some r => exact (hrv r rfl).1
     · unfold Fc2Diff.current; cases rv with
-      | none => exact hc.fc2_missed e hs.2.1
+      | none => exact hmh
       | some r => exact (hrv r rfl).2
   have hA1 := putFc2_agree hI.struct hc.disj hT f hfid
   have hA2 := agree_addSpend (ms.putFc2 e.id f) e.id
